@@ -415,4 +415,136 @@ lemma acondVars_bind (env : Name → Option V) (as : Attrs V)
     refine List.Forall₂.cons ?_ (ih (fun ka' h => hfresh ka' (List.mem_cons_of_mem _ h)))
     exact args_bindAttr env ka.1 ka.2 (hfresh ka List.mem_cons_self)
 
+/-! ### ingredients of the result-level refinement -/
+
+lemma dedupInto_nodup (acc l : List Name) (h : acc.Nodup) : (dedupInto acc l).Nodup := by
+  induction l generalizing acc with
+  | nil => simpa [dedupInto] using h
+  | cons m r ih =>
+    unfold dedupInto
+    by_cases hc : acc.contains m = true
+    · rw [if_pos hc]; exact ih acc h
+    · rw [if_neg hc]
+      apply ih
+      have hm : m ∉ acc := by simpa using hc
+      rw [List.nodup_append]
+      refine ⟨h, by simp, ?_⟩
+      intro a ha b hb
+      simp only [List.mem_singleton] at hb
+      subst hb
+      rintro rfl
+      exact hm ha
+
+lemma kwKeys_zip_nodup (l : List Name) (args : List V) (h : l.Nodup) : (kwKeys (l.zip args)).Nodup := by
+  induction l generalizing args with
+  | nil => simp [kwKeys]
+  | cons k r ih =>
+    cases args with
+    | nil => simp [kwKeys]
+    | cons a as =>
+      have hk : k ∉ r := (List.nodup_cons.1 h).1
+      have : kwKeys ((k :: r).zip (a :: as)) = k :: kwKeys (r.zip as) := by simp [kwKeys]
+      rw [this, List.nodup_cons]
+      exact ⟨fun hin => hk (kwKeys_zip_subset r as k hin), ih as (List.nodup_cons.1 h).2⟩
+
+lemma parseDist_ok (cv : List Name) (args : List V) (kw kw' : Kw V) (h : parseDist cv args kw = .ok kw') :
+    kw' = kw ++ (cv ++ [mainKey]).zip args ∧ ∀ k ∈ kwKeys ((cv ++ [mainKey]).zip args), k ∉ kwKeys kw := by
+  unfold parseDist at h
+  by_cases h1 : args.length > cv.length + 1
+  · rw [if_pos h1] at h; cases h
+  · rw [if_neg h1] at h
+    by_cases h2 : ((cv ++ [mainKey]).zip args).any (fun kv => (kwKeys kw).contains kv.1) = true
+    · change (if ((cv ++ [mainKey]).zip args).any (fun kv => (kwKeys kw).contains kv.1) = true then _ else _) = _ at h
+      rw [if_pos h2] at h; cases h
+    · change (if ((cv ++ [mainKey]).zip args).any (fun kv => (kwKeys kw).contains kv.1) = true then _ else _) = _ at h
+      rw [if_neg h2] at h
+      refine ⟨by cases h; rfl, ?_⟩
+      intro k hk hin
+      apply h2
+      simp only [kwKeys, List.mem_map] at hk
+      obtain ⟨kv, hkv, rfl⟩ := hk
+      exact List.any_eq_true.2 ⟨kv, hkv, by simpa using hin⟩
+
+/-- keywords processed by the whole loop = the keywords that are conditioning variables -/
+lemma processed_iff (as : Attrs V) (kw : Kw V) (k : Name) (hk : k ∈ kwKeys kw)
+    (hmut : k ∈ as.map (·.1) → k ∈ acondVars as) :
+    k ∈ (as.map (fun ka => (ka.1, condAttr kw ka.1 ka.2))).flatMap (fun kr => kr.2.2) ↔ k ∈ acondVars as := by
+  simp only [List.mem_flatMap, List.mem_map]
+  constructor
+  · rintro ⟨kr, ⟨ka, hka, rfl⟩, hmem⟩
+    rcases (mem_condAttr_processed kw ka.1 ka.2 k).1 hmem with ⟨rfl, _⟩ | ⟨_, hargs⟩
+    · exact hmut (List.mem_map.2 ⟨ka, hka, rfl⟩)
+    · exact List.mem_append_right _ ((mem_indirectVars as k).2 ⟨ka, hka, hargs⟩)
+  · intro hcv
+    rcases List.mem_append.1 hcv with hn | hi
+    · refine ⟨_, ⟨(k, Attr.none), (mem_noneVars as k).1 hn, rfl⟩, ?_⟩
+      exact (mem_condAttr_processed kw k .none k).2 (Or.inl ⟨rfl, hk⟩)
+    · obtain ⟨ka, hka, hargs⟩ := (mem_indirectVars as k).1 hi
+      exact ⟨_, ⟨ka, hka, rfl⟩, (mem_condAttr_processed kw ka.1 ka.2 k).2 (Or.inr ⟨hk, hargs⟩)⟩
+
+/-- a bound fresh variable that is neither `None` nor has open arguments holds a value -/
+lemma bindAttr_val_of (env : Name → Option V) (k : Name) (a : Attr V)
+    (hfresh : ∀ id sig b, a = .fn id sig b → b = [])
+    (h1 : (bindAttr env k a).isNone = false) (h2 : (bindAttr env k a).args = []) :
+    ∃ v, bindAttr env k a = .val v := by
+  cases a with
+  | val x => exact ⟨x, rfl⟩
+  | none =>
+    cases he : env k with
+    | some v => exact ⟨.given v, by simp [bindAttr, he]⟩
+    | none => simp [bindAttr, he, Attr.isNone] at h1
+  | fn id sig b =>
+    by_cases hall : sig.all (fun n => (env n).isSome) = true
+    · exact ⟨.app id (sig.filterMap env), by simp [bindAttr, hall]⟩
+    · exfalso
+      rw [args_bindAttr env k _ hfresh] at h2
+      have hb : b = [] := hfresh id sig b rfl
+      subst hb
+      have hsig : remArgs sig ([] : Kw V) = sig := by simp [remArgs, kwKeys]
+      simp only [Attr.args, hsig] at h2
+      apply hall
+      apply List.all_eq_true.2
+      intro n hn
+      have := List.filter_eq_nil_iff.1 h2 n hn
+      cases h : env n <;> simp_all
+
+/-- **definedness of the attribute values**: no conditioning variable left ⇒ every mutable variable holds a value -/
+lemma avals_defined (env : Name → Option V) (as : Attrs V)
+    (hfresh : ∀ ka ∈ as, ∀ id sig b, ka.2 = .fn id sig b → b = [])
+    (h : acondVars (bindAttrs env as) = []) : ∃ vs, avals (bindAttrs env as) = some vs := by
+  have hn : noneVars (bindAttrs env as) = [] := (List.append_eq_nil_iff.1 h).1
+  have hi : indirectVars (bindAttrs env as) = [] := (List.append_eq_nil_iff.1 h).2
+  have hall : ∀ ka ∈ as, ∃ v, bindAttr env ka.1 ka.2 = .val v := by
+    intro ka hka
+    apply bindAttr_val_of env ka.1 ka.2 (hfresh ka hka)
+    · by_contra hne
+      have hT : (bindAttr env ka.1 ka.2).isNone = true := by simpa using hne
+      have : ka.1 ∈ noneVars (bindAttrs env as) := by
+        unfold noneVars bindAttrs
+        exact List.mem_map.2 ⟨(ka.1, bindAttr env ka.1 ka.2), List.mem_filter.2 ⟨List.mem_map.2 ⟨ka, hka, rfl⟩, hT⟩, rfl⟩
+      rw [hn] at this; cases this
+    · by_contra hne
+      obtain ⟨n, hnmem⟩ := List.exists_mem_of_ne_nil _ hne
+      have : n ∈ indirectVars (bindAttrs env as) :=
+        (mem_indirectVars _ n).2 ⟨(ka.1, bindAttr env ka.1 ka.2), List.mem_map.2 ⟨ka, hka, rfl⟩, hnmem⟩
+      rw [hi] at this; cases this
+  clear h hn hi hfresh
+  induction as with
+  | nil => exact ⟨[], rfl⟩
+  | cons ka r ih =>
+    obtain ⟨v, hv⟩ := hall ka List.mem_cons_self
+    obtain ⟨vs, hvs⟩ := ih (fun kb hkb => hall kb (List.mem_cons_of_mem _ hkb))
+    refine ⟨(ka.1, v) :: vs, ?_⟩
+    have : bindAttrs env (ka :: r) = (ka.1, .val v) :: bindAttrs env r := by simp [bindAttrs, hv]
+    rw [this]
+    simp [avals, hvs]
+
+lemma bindAttrs_congr (env env' : Name → Option V) (as : Attrs V)
+    (h : ∀ ka ∈ as, ∀ n ∈ ka.2.reads ka.1, env n = env' n) : bindAttrs env as = bindAttrs env' as := by
+  unfold bindAttrs
+  apply List.map_congr_left
+  intro ka hka
+  rw [bindAttr_congr env env' ka.1 ka.2 (h ka hka)]
+
+
 end CuqiVerif.C01
